@@ -54,8 +54,8 @@ UNSAFE_FNS = {
     "<CircularBuffer::drop_range::Dropper<T> as Drop>::drop": "drop_in_place of an occupied segment",
     "<CircularBuffer::extend_from_slice::write_uninit_slice_cloned::Guard<T> as Drop>::drop": "drop_in_place of dst[..initialized]",
     "<CircularBuffer<N, T> as From<[T; M]>>::from": "uninit array, bit-copy, prefix destruction",
-    "<Drain<N, T> as DoubleEndedIterator>::next_back::{closure}": "calls unsafe fn Drain::read",
-    "<Drain<N, T> as Iterator>::next::{closure}": "calls unsafe fn Drain::read",
+    "<Drain<N, T> as DoubleEndedIterator>::next_back": "calls unsafe fn Drain::read (in the function or in its mapping closure)",
+    "<Drain<N, T> as Iterator>::next": "calls unsafe fn Drain::read (in the function or in its mapping closure)",
     "<Drain<N, T> as Drop>::drop": "NonNull::as_mut, ptr::copy back-fill",
     "CircularBuffer::as_mut_slices": "slice_assume_init_mut on the occupied ranges (REINT1)",
     "CircularBuffer::as_slices": "slice_assume_init_ref on the occupied ranges (REINT1)",
